@@ -1301,6 +1301,9 @@ pub fn array_from(
     let _source_guard = interp.guard_value(&source);
     let _map_fn_guard = map_fn.as_ref().and_then(|m| interp.guard_value(m));
 
+    // Everything collected here is only held by this function until the result
+    // array exists; the callbacks may detach it from its source and allocate
+    let guard = interp.heap.create_guard();
     let mut elements = Vec::new();
 
     match source {
@@ -1313,6 +1316,9 @@ pub fn array_from(
                     .array_elements()
                     .map(|e| e.to_vec())
                     .unwrap_or_default();
+                for elem in &source_elements {
+                    elem.guard_by(&guard);
+                }
                 for (i, elem) in source_elements.into_iter().enumerate() {
                     let mapped = if let Some(ref map) = map_fn {
                         if map.is_callable() {
@@ -1331,6 +1337,7 @@ pub fn array_from(
                     } else {
                         elem
                     };
+                    mapped.guard_by(&guard);
                     elements.push(mapped);
                 }
             } else {
@@ -1390,6 +1397,7 @@ pub fn array_from(
                                         .borrow()
                                         .get_property(&value_key)
                                         .unwrap_or(JsValue::Undefined);
+                                    elem.guard_by(&guard);
 
                                     let mapped = if let Some(ref map) = map_fn {
                                         if map.is_callable() {
@@ -1408,7 +1416,8 @@ pub fn array_from(
                                     } else {
                                         elem
                                     };
-                                    elements.push(mapped);
+                                    mapped.guard_by(&guard);
+                    elements.push(mapped);
                                     i += 1;
                                 } else {
                                     break;
@@ -1440,13 +1449,13 @@ pub fn array_from(
                 } else {
                     elem
                 };
-                elements.push(mapped);
+                mapped.guard_by(&guard);
+                    elements.push(mapped);
             }
         }
         _ => {}
     }
 
-    let guard = interp.heap.create_guard();
     let arr = interp.create_array_from(&guard, elements);
     Ok(Guarded::with_guard(JsValue::Object(arr), guard))
 }
@@ -1879,6 +1888,14 @@ pub fn array_to_sorted(
         })
         .collect();
 
+    // The copies are held by this function only: the comparator may detach them
+    // from the receiver and allocate
+    let guard = interp.heap.create_guard();
+    guard.guard(arr.cheap_clone());
+    for elem in &elements {
+        elem.guard_by(&guard);
+    }
+
     if let Some(ref cmp_fn) = comparator {
         if cmp_fn.is_callable() {
             let cmp_fn = cmp_fn.clone();
@@ -1919,7 +1936,6 @@ pub fn array_to_sorted(
         elements = pairs.into_iter().map(|(_, v)| v).collect();
     }
 
-    let guard = interp.heap.create_guard();
     let arr = interp.create_array_from(&guard, elements);
     Ok(Guarded::with_guard(JsValue::Object(arr), guard))
 }
